@@ -303,6 +303,30 @@ def run (s : State) : List Op → State
   | [] => s
   | o :: rest => run (step s o) rest
 
+/-! ### executable premises of the operation theorems (`Pfst.C02.WF`, `Pfst.C02.Admissible`)
+
+The driver evaluates them on every real state / call of the correspondence, so the evidence says on how many real
+calls the hypotheses of `setAst_inv` / `setField_inv` / `run_wf` actually held. -/
+
+/-- the FST objects of the tree exist -/
+def boundedB (s : State) : Bool :=
+  (ids s.root).all (fun x => match s.σ.astF x with | some g => decide (g < s.σ.next) | none => true)
+
+def wfB (s : State) : Bool := linkInvB s && decide (ids s.root).Nodup && boundedB s
+
+/-- pairwise distinct ASTs, none of which has an FST -/
+def freshB (σ : Store) (l : List Nat) : Bool := decide l.Nodup && l.all (fun x => (σ.astF x).isNone)
+
+def admissibleB (s : State) : Op → Bool
+  | .setAst f new v u => !v && u && (match ((s.σ.fst f).a).bind (fun i => findId i s.root) with
+      | some old => (s.σ.astF old.id == some f) && (s.root.id != old.id) && freshB s.σ (ids new)
+      | none => false)
+  | .setField f _ _ new v u => !v && u && (match ((s.σ.fst f).a).bind (fun i => findId i s.root) with
+      | some P => (s.σ.astF P.id == some f) && freshB s.σ (idsList new)
+      | none => false)
+  | .touch _ => true
+  | .touchall _ _ _ _ => false
+
 /-! ### cache clearing of the `_offset` walk (fst_core.py:1722-1779) -/
 
 open Pfst.Offset in
